@@ -175,6 +175,40 @@ def init (k : Nat) (g : List Scope) : State :=
 def run (k : Nat) (g : List Scope) (order : List Str) : State :=
   order.foldl (step g) (init k g)
 
+/-! ### host association: contained procedures
+
+  `FortranCodeUnit.correlate` of a module procedure / internal procedure starts from a copy of
+  its host's `all_*` tables, overlays its own declarations, runs the same USE loop (so a name
+  obtained by USE replaces a host-associated entry of that name) and is reached by the recursion
+  at the end of its host's `correlate`, i.e. inside the `ranklist` step of its root module. -/
+
+/-- a contained procedure: `root` is the module or program whose `correlate` recursion reaches
+    it, `host` the immediately enclosing scope (the root, or another contained procedure) -/
+structure Nested where
+  root : Str
+  host : Str
+  scope : Scope
+  deriving Repr
+
+/-- top of `correlate`: `{**parent.all_procs, **self.all_procs}`, `dict(parent.all_types)` + own -/
+def nestedStart (k : Nat) (hostAll : Table) (p : Scope) : Tabs :=
+  { pub := [], all := update hostAll (tableOf p (declsOf k p)) }
+
+/-- `correlate` of a contained procedure whose host's table is `hostAll` -/
+def correlateNested (g : List Scope) (st : State) (k : Nat) (hostAll : Table) (p : Scope) : Tabs :=
+  p.uses.foldl (useStep g st p) (nestedStart k hostAll p)
+
+def stepNested (g : List Scope) (k : Nat) (st : State) (x : Nested) : State :=
+  aset st x.scope.name (correlateNested g st k (getTabs st x.host).all x.scope)
+
+/-- one `container.correlate(project)` of the ranklist loop, including the recursion into the
+    contained procedures of that container (`ns` lists a host before its children) -/
+def stepN (g : List Scope) (ns : List Nested) (k : Nat) (st : State) (n : Str) : State :=
+  (ns.filter (fun x => x.root == n)).foldl (stepNested g k) (step g st n)
+
+def runN (k : Nat) (g : List Scope) (ns : List Nested) (order : List Str) : State :=
+  order.foldl (stepN g ns k) (init k g)
+
 /-! ### The regular expressions, as deterministic scanners -/
 
 def spanWord : Str → Str × Str
